@@ -137,6 +137,20 @@ PLAN = {
         quick=[enum("enum", "TestEnum", shards=15, env={"VERIF_C09_ENUM_LEN": 4}), rapid("prop", "TestProp", 5000)],
         thorough=[enum("enum", "TestEnum", shards=15, env={"VERIF_C09_ENUM_LEN": 5}, timeout=3000), rapid("prop", "TestProp", 30000, shards=16)],
     ),
+    "C10": dict(
+        pkg="c10",
+        rule=("rapid-generated contents (build histories with string and mixed items, repeated headers, late adds, separators; alignments and skipable settings) x creation path (core New, each sub-package New, auto.New of every listed style and of "
+              "case/section variants) x nesting chain of 0..3 wrappers over {csv, html, json, markdown, texttable, texttable set to another decoration} applied before or after building x target in {csv, html, json, markdown, each registered decoration}, "
+              "optionally with a long-lived target wrapper created and rendered while the table was still incomplete. Oracle (differential/metamorphic): the same content replayed on a core table and rendered once by X.Wrap(t).Render(); "
+              "X.Render(t), X.Wrap(t).Render(), X.RenderTo(t,w), X.Wrap(t).RenderTo(w), Render-then-RenderTo on one wrapper, the table's own Render() when it is of the target kind, auto.Render/RenderTo/Wrap with the style and 'texttable.<style>', "
+              "and the long-lived wrapper must all be byte-identical to it and agree on error-ness. Plus an enumeration of 2 contents x 20 creation paths x 57 chains (depth<=2) x 10 targets x 2 build orders. "
+              "Non-trivial: creation path other than core, or a wrapper of another kind than the target in the chain. Distinct: FNV-64 of the case."),
+        level_text="Generated-input search with a differential/metamorphic oracle (many routes to one answer must agree with a single-route reference), plus a bounded enumeration of creation paths x wrapper chains x targets. Exploration level.",
+        level_note="The reference is produced by the library itself on the simplest route (core New + X.Wrap(t).Render()), so an error common to all routes is invisible here (C03-C08 judge content). Items whose %v text embeds a memory address are not generated (two builds cannot agree on them).",
+        technique="property-based testing (rapid) with a differential/metamorphic route-agreement oracle + bounded enumeration of configurations",
+        quick=[rapid("prop", "TestProp", 3000), enum("routes", "TestEnum", shards=12)],
+        thorough=[rapid("prop", "TestProp", 15000, shards=16), enum("routes", "TestEnum", shards=12)],
+    ),
     "C18": dict(
         pkg="c18",
         rule=("strings built from a width-hostile token alphabet (newlines leading/trailing/repeated, CJK wide, full-width, combining, zero-width, emoji ZWJ/flag/skin-tone sequences, "
